@@ -33,7 +33,7 @@ fn verify_layout_signatures(
 fn verify_layout_expiration(layout: &LayoutMetadata) -> Result<()> {
     let time = layout.expires;
     let now = chrono::Utc::now();
-    #[cfg(in_toto_verif)]
+    #[cfg(all(in_toto_verif, not(in_toto_verif_nosites)))]
     let now = crate::verif_hooks::clock().unwrap_or(now);
     if time < now {
         return Err(Error::VerificationFailure("layout expired".to_string()));
@@ -90,7 +90,7 @@ fn load_links_for_layout(
         let matched_files = glob(path_pattern).map_err(|e| {
             Error::VerificationFailure(format!("Path glob error: {}", e))
         })?;
-        #[cfg(in_toto_verif)]
+        #[cfg(all(in_toto_verif, not(in_toto_verif_nosites)))]
         let matched_files = crate::verif_hooks::perm_paths(matched_files, "E");
         for link_path in matched_files.flatten() {
             // load link from the disk, canbe either a linkfile or a layout file
@@ -148,7 +148,7 @@ fn verify_link_signature_thresholds_step(
     pubkeys: &HashMap<KeyId, PublicKey>,
 ) -> Result<HashMap<KeyId, Metablock>> {
     let mut metablocks = HashMap::new();
-    #[cfg(in_toto_verif)]
+    #[cfg(all(in_toto_verif, not(in_toto_verif_nosites)))]
     let links = &crate::verif_hooks::view(links, "A");
 
     // Get all links for the given step, verify them, and record the good
@@ -224,11 +224,11 @@ fn verify_sublayouts(
     link_dir: &str,
 ) -> Result<HashMap<String, HashMap<KeyId, LinkMetadata>>> {
     let mut steps_link_metadata = HashMap::new();
-    #[cfg(in_toto_verif)]
+    #[cfg(all(in_toto_verif, not(in_toto_verif_nosites)))]
     let chain_link_dict = crate::verif_hooks::owned(chain_link_dict, "B");
     for (step_name, key_link_dict) in chain_link_dict {
         let mut link_per_step = HashMap::new();
-        #[cfg(in_toto_verif)]
+        #[cfg(all(in_toto_verif, not(in_toto_verif_nosites)))]
         let key_link_dict = crate::verif_hooks::owned(key_link_dict, "B2");
         for (keyid, link) in &key_link_dict {
             let link_metadata = match &link.metadata {
@@ -335,7 +335,7 @@ fn verify_threshold_constraints(
                     step.name
                 ))
             })?;
-        #[cfg(in_toto_verif)]
+        #[cfg(all(in_toto_verif, not(in_toto_verif_nosites)))]
         let key_link_per_step =
             &crate::verif_hooks::view(key_link_per_step, "C");
         if key_link_per_step.len() < step.threshold as usize {
@@ -377,7 +377,7 @@ fn reduce_chain_links(
     link_files: HashMap<String, HashMap<KeyId, LinkMetadata>>,
 ) -> Result<HashMap<String, LinkMetadata>> {
     let mut res = HashMap::new();
-    #[cfg(in_toto_verif)]
+    #[cfg(all(in_toto_verif, not(in_toto_verif_nosites)))]
     let link_files = crate::verif_hooks::owned_nested(link_files, "D");
     link_files.iter().try_for_each(|(k, v)| -> Result<()> {
         res.insert(
